@@ -34,7 +34,7 @@ func (analyzerEngine) counts(prop, tier string) (sys, rnd, fix int) {
 	case "C11", "C12", "C13":
 		sys = gen.PlantedCount() * 3 * 2
 	case "C14":
-		sys = 128 + 9 + 9 + 50
+		sys = 128 + 9 + 9 + 50 + 4
 	case "C15":
 		sys = 7 * 12
 	}
@@ -159,6 +159,21 @@ func c14Sys(idx int, c *runner.Case) jx.Obj {
 			op[field] = v
 		}
 		doc["paths"] = jx.Obj{"/p": jx.Obj{"post": op, "get": opWith(nil)}}
+	case idx >= 128+18+50:
+		k := idx - (128 + 18 + 50)
+		c.Name = fmt.Sprintf("sys/required-media/%d", k)
+		doc["consumes"] = jx.Arr{"application/json"}
+		doc["produces"] = jx.Arr{"application/json", "application/xml"}
+		own := jx.Obj{"consumes": jx.Arr{"text/plain"}, "produces": jx.Arr{"text/csv"}}
+		switch k {
+		case 0: // every operation overrides both lists
+			doc["paths"] = jx.Obj{"/p": jx.Obj{"head": opWith(own), "options": opWith(own)}}
+		case 1: // no operation at all
+			doc["paths"] = jx.Obj{}
+		case 2: // only consumes overridden everywhere
+			doc["paths"] = jx.Obj{"/p": jx.Obj{"put": opWith(jx.Obj{"consumes": jx.Arr{"text/plain"}}), "patch": opWith(jx.Obj{"consumes": jx.Arr{"application/x-yaml"}})}}
+		default: // no paths section
+		}
 	default:
 		k := idx - 128 - 18
 		withDefs := k >= 25
